@@ -188,6 +188,9 @@ pub struct XmlTreeBuilder<Handle, Sink> {
 
     /// Current tree builder phase.
     phase: Cell<XmlPhase>,
+
+    /// Whether a DOCTYPE has been appended to the document already.
+    doctype_appended: Cell<bool>,
 }
 impl<Handle, Sink> XmlTreeBuilder<Handle, Sink>
 where
@@ -208,6 +211,7 @@ where
             namespace_stack: RefCell::new(NamespaceMapStack::new()),
             current_namespace: RefCell::new(NamespaceMap::empty()),
             phase: Cell::new(XmlPhase::Start),
+            doctype_appended: Cell::new(false),
         }
     }
 
@@ -660,7 +664,13 @@ where
                     XmlProcessResult::Reprocess(XmlPhase::End, Token::Eof)
                 },
                 Token::Doctype(d) => {
-                    self.append_doctype_to_doc(d);
+                    // A document has at most one DOCTYPE; the sink is promised a single call.
+                    if self.doctype_appended.replace(true) {
+                        self.sink
+                            .parse_error(Borrowed("Unexpected DOCTYPE in start phase"));
+                    } else {
+                        self.append_doctype_to_doc(d);
+                    }
                     XmlProcessResult::Done
                 },
                 _ => {
